@@ -361,6 +361,18 @@ H("web_find_trailers_40", ["C17"], "web_vb", *WEB, tier="thorough", cap_s=3600,
   obligation="U1: find_trailers == independent frame walker", functions=["tonic_web::call::find_trailers"],
   bounds="all buffers of length 0..=40 (symbolic length)")
 
+MK = ("tonic/src/metadata/key.rs", "tonic/metadata_key.rs")
+for n in (3, 5):
+    H("md_key_from_bytes_%d" % n, ["C08"], "core_vb", *MK, cap_s=3600, mem_gb=24, tier="thorough", optional=True,
+      obligation="M4: MetadataKey::<Ascii>::from_bytes succeeds iff the bytes are a valid header name NOT ending in -bin (case-insensitive), "
+                 "MetadataKey::<Binary>::from_bytes iff valid AND ending in -bin; never both",
+      functions=["MetadataKey::from_bytes", "ValueEncoding::is_valid_key", "http::HeaderName::from_bytes (as the definition of validity)"],
+      bounds="all %d-byte strings" % n, may_be_uncovered=["binary key"] if n < 4 else [])
+H("md_bin_values_equal_padding", ["C08"], "core_vb", *ME, cap_s=3600, mem_gb=24, tier="thorough", optional=True,
+  obligation="M3: Binary::values_equal / equals: the padded and the unpadded spelling of one binary value are equal to each other and to "
+             "the decoded bytes",
+  functions=["metadata::encoding::Binary::{values_equal,equals,decode}"], bounds="all canonical one-byte values ('XX' vs 'XX==')")
+
 
 def select(pid, tier, seed=0):
     out = []
